@@ -22,12 +22,34 @@ def _relay_hi_rs_writes():
 
 _RH = _relay_hi_rs_writes()
 
+def _src_literals():
+    """time limits written as literals in supla_esp_gpio_rs_timer_cb (textual patterns): reporting period, 10-minute limit (both
+    counters), power-detection window; -1 when the pattern is not found exactly as expected"""
+    try:
+        txt = open(os.path.join(G.REPO, 'src', 'user', 'supla_esp_rs_fb.c')).read()
+    except OSError:
+        return dict(REPORT_PERIOD_SRC=-1, TEN_MINUTES_SRC=-1, TEN_MINUTES_TESTS=-1, POWER_DETECT_SRC=-1)
+    txt = re.sub(r'//[^\n]*|/\*.*?\*/', '', txt, flags=re.S)
+    r = {}
+    m = re.findall(r't\s*-\s*rs_cfg->last_comm_time\s*>=\s*(\d+)', txt)
+    r['REPORT_PERIOD_SRC'] = int(m[0]) if len(m) == 1 else -1
+    m = re.findall(r'rs_cfg->(up_time|down_time)\s*>\s*(\d+)\s*\*\s*(\d+)\s*\*\s*(\d+)', txt)
+    vals = {int(a) * int(b) * int(c) for (_, a, b, c) in m}
+    r['TEN_MINUTES_SRC'] = vals.pop() if len(vals) == 1 else -1
+    r['TEN_MINUTES_TESTS'] = len({f for (f, _, _, _) in m})
+    m = re.findall(r't\s*-\s*rs_cfg->start_time\s*<\s*(\d+)\s*\*\s*(\d+)\)', txt)
+    r['POWER_DETECT_SRC'] = int(m[0][0]) * int(m[0][1]) if len(m) == 1 else -1
+    return r
+
+_LIT = _src_literals()
+
 G.GROUPS['RsConsts'] = dict(
     pre='#include <stddef.h>\n#include <os_type.h>\n#include <osapi.h>\n#include <supla_esp.h>\n#include <supla_esp_cfg.h>\n'
         '#include <supla_esp_gpio.h>\n#include <supla_esp_rs_fb.h>\n#include <proto.h>\n'
         # the two getters are probed as functions of the stored word (behavioural: the bounds of both comparisons are recovered from the
         # compiled source, so a dropped or moved comparison changes the generated constants and breaks consts_ok of C09/Proofs.v)
-        '#include "supla_esp_rs_fb.c"\n',
+        '#include "supla_esp_rs_fb.c"\n'
+        'void supla_log(int p, const char *f, ...) { (void)p; (void)f; }\n',
     ints=[
         ('RS_MAX_COUNT_', 'RS_MAX_COUNT'),
         ('RELAY_OFF', 'RS_RELAY_OFF'),
@@ -82,9 +104,15 @@ G.GROUPS['RsConsts'] = dict(
     fprintf(stdout, "I GETTER_POS_OUTSIDE_KNOWN %lld\\nI GETTER_TILT_OUTSIDE_KNOWN %lld\\nI GETTER_POS_ROUNDING_DIFFERS %lld\\nI GETTER_TILT_ROUNDING_DIFFERS %lld\\n", pbad, tbad, prnd, trnd);
     fprintf(stdout, "I GETTER_TILT_BELOW_NONZERO %lld\\n", tbelow);
     fprintf(stdout, "S RELAY_HI_RS_WRITES"); { const char *w = "'''+_RH+'''"; for (; *w; w++) fprintf(stdout, " %u", (unsigned char)*w); } fprintf(stdout, "\\n");
-    tty = 0; T = 5100; fprintf(stdout, "I GETTER_TILT_UNSUPPORTED %d\\n", (int)supla_esp_gpio_rs_get_current_tilt(&rc));
+    { static supla_roller_shutter_cfg_t mc; int ms_[5] = {-1, 0, 100, 101, 110}; const char *nm[5] = {"M1", "0", "100", "101", "110"};
+      for (int i = 0; i < 5; i++) { supla_esp_gpio_rs_set_time_margin(&mc, ms_[i]); fprintf(stdout, "I MARGIN_OF_%s %d\\n", nm[i], (int)mc.rs_time_margin); }
+      /* supla_esp_gpio_rs_time_margin(full 1000 ms, time, 5 %): first time (us) at which it answers 0 */
+      long long first0 = -1; for (long long t_ = 0; t_ <= 200000; t_++) if (!supla_esp_gpio_rs_time_margin(&mc, 1000, (unsigned)t_, 5)) { first0 = t_; break; }
+      fprintf(stdout, "I TIME_MARGIN_5PCT_OF_1S_ENDS %lld\\nI TIME_MARGIN_FULL0 %d\\n", first0, (int)supla_esp_gpio_rs_time_margin(&mc, 0, 0, 5)); }
+'''+''.join('    fprintf(stdout, "I %s %d\\n");\n' % (k_, v_) for k_, v_ in sorted(_LIT.items()))+'''    tty = 0; T = 5100; fprintf(stdout, "I GETTER_TILT_UNSUPPORTED %d\\n", (int)supla_esp_gpio_rs_get_current_tilt(&rc));
   }
 ''',
     extra_names=['GETTER_POS_LO', 'GETTER_POS_HI', 'GETTER_TILT_FIRST_NONZERO', 'GETTER_TILT_HI', 'GETTER_TILT_BELOW_NONZERO', 'GETTER_POS_OUTSIDE_KNOWN', 'GETTER_TILT_OUTSIDE_KNOWN',
-                 'GETTER_POS_ROUNDING_DIFFERS', 'GETTER_TILT_ROUNDING_DIFFERS', 'GETTER_TILT_UNSUPPORTED', 'RELAY_HI_RS_WRITES'],
+                 'GETTER_POS_ROUNDING_DIFFERS', 'GETTER_TILT_ROUNDING_DIFFERS', 'GETTER_TILT_UNSUPPORTED', 'RELAY_HI_RS_WRITES', 'MARGIN_OF_M1', 'MARGIN_OF_0', 'MARGIN_OF_100', 'MARGIN_OF_101', 'MARGIN_OF_110',
+                 'TIME_MARGIN_5PCT_OF_1S_ENDS', 'TIME_MARGIN_FULL0', 'POWER_DETECT_SRC', 'REPORT_PERIOD_SRC', 'TEN_MINUTES_SRC', 'TEN_MINUTES_TESTS'],
 )
